@@ -149,6 +149,13 @@ func renderHeader(form, t string, variant int) (present bool, value string) {
 	panic("form " + form)
 }
 
+func orZero(v any) any {
+	if v == nil {
+		return 0
+	}
+	return v
+}
+
 type silentLogger struct{}
 
 func (silentLogger) Printf(string, ...interface{}) {}
@@ -190,6 +197,9 @@ func execPick(c *drv.Ctx, d M) bool {
 		resp := &http.Response{StatusCode: status, Status: fmt.Sprintf("%d %s", status, http.StatusText(status)),
 			Proto: "HTTP/1.1", ProtoMajor: 1, ProtoMinor: 1, Header: h, ContentLength: int64(len(body)),
 			Body: io.NopCloser(bytes.NewReader(body)), Request: req}
+		if k := drv.Int(orZero(d["stutter"])); k > 1 {
+			resp.Body = &stutterBody{data: body, k: k, chunk: 997}
+		}
 		if chunked {
 			resp.ContentLength = -1
 			resp.TransferEncoding = []string{"chunked"}
@@ -218,6 +228,9 @@ func execPick(c *drv.Ctx, d M) bool {
 	if drv.Bool(d["debug"]) {
 		rt.SetLogger(silentLogger{}) // Runtime.Debug dumps request and response through the logger
 		rt.Debug = true
+	}
+	if drv.Bool(d["reuse"]) {
+		rt.EnableConnectionReuse() // wraps the response bodies (KeepAliveTransport)
 	}
 	rctx, rrel := mkRtCtx(rtCtx)
 	defer rrel()
@@ -560,6 +573,9 @@ func execute(c *drv.Ctx, d M) bool {
 	case "pick":
 		return execPick(c, d)
 	case "conc":
+		if drv.Str(d["mode"]) == "overlap" {
+			return execOverlap(c, d)
+		}
 		return execConc(c, d)
 	case "retain":
 		return execRetain(c, d)
@@ -621,7 +637,8 @@ func generate(c *drv.Ctx) {
 							"header": M{"form": h.form, "t": h.t}, "variant": v, "status": statuses[idx%5],
 							"op_client": idx%2 == 1, "op_ctx": opCtxKinds[(idx/2)%5], "rt_ctx": rtCtxKinds[(idx/10)%5],
 							"rt_client": []string{"transport", "withclient"}[(idx/8)%2], "body_len": idx % 7,
-							"debug": (idx/3)%4 == 0 && statuses[idx%5] != 204, "framing": []string{"length", "chunked"}[(idx/5)%2]})
+							"debug": (idx/3)%4 == 0 && statuses[idx%5] != 204, "framing": []string{"length", "chunked"}[(idx/5)%2],
+							"reuse": (idx/7)%2 == 1, "stutter": []int{0, 0, 2, 3}[(idx/11)%4]})
 						npick++
 					}
 					idx++
@@ -666,7 +683,8 @@ func generate(c *drv.Ctx) {
 			"header": M{"form": h.form, "t": h.t}, "variant": c.Rng.Intn(84), "status": 100 + c.Rng.Intn(500),
 			"op_client": c.Rng.Intn(2) == 0, "op_ctx": opCtxKinds[c.Rng.Intn(5)], "rt_ctx": rtCtxKinds[c.Rng.Intn(5)],
 			"rt_client": []string{"transport", "withclient"}[c.Rng.Intn(2)], "body_len": c.Rng.Intn(3000),
-			"debug": false, "framing": []string{"length", "chunked"}[c.Rng.Intn(2)]})
+			"debug": false, "framing": []string{"length", "chunked"}[c.Rng.Intn(2)],
+			"reuse": c.Rng.Intn(2) == 0, "stutter": []int{0, 0, 2, 3, 7}[c.Rng.Intn(5)]})
 		npick++
 	}
 	// (3b) the reader sees the body unchanged, with and without Runtime.Debug, for bodies of 0 B .. a few MiB
@@ -684,6 +702,24 @@ func generate(c *drv.Ctx) {
 							"op_client": s == 404, "op_ctx": "nil", "rt_ctx": "default", "rt_client": "transport", "body_len": 0,
 							"body_bytes": sz, "debug": dbg, "framing": fr})
 						npick++
+					}
+				}
+			}
+		}
+	}
+	// (3c) bodies whose Read sometimes returns (0, nil) before the end, with and without connection reuse / Debug
+	for _, reuse := range []bool{false, true} {
+		for _, st := range []int{0, 2, 3, 5} {
+			for _, sz := range []int{0, 1, 996, 997, 998, 4096, 100000} {
+				for _, fr := range []string{"length", "chunked"} {
+					for _, dbg := range []bool{false, true} {
+						for _, rc := range []string{"transport", "withclient"} {
+							c.Case(M{"kind": "pick", "registry": []string{types[0], types[3]}, "star": false, "default": types[0],
+								"default_form": "plain", "header": M{"form": "plain", "t": types[sz%2*3]}, "variant": 0, "status": 200,
+								"op_client": false, "op_ctx": "nil", "rt_ctx": "default", "rt_client": rc, "body_len": 0,
+								"body_bytes": sz, "debug": dbg, "framing": fr, "reuse": reuse, "stutter": st})
+							npick++
+						}
 					}
 				}
 			}
@@ -731,6 +767,7 @@ func generate(c *drv.Ctx) {
 		}
 	}
 	c.Extra["conc_cases"] = nconc
+	generateOverlap(c, thorough)
 	generateRetain(c, thorough)
 	generateOpReuse(c, thorough)
 	generateMulti(c, thorough)
